@@ -174,7 +174,7 @@ func CheckWS(c Case) []evid.Violation {
 	}
 	if !closed {
 		// clean end: close 1000
-		if err := wsutil.WriteClientMessage(conn, ws.OpClose, ws.NewCloseFrameBody(ws.StatusNormalClosure, "")); err != nil {
+		if err := wsutil.WriteClientMessage(conn, ws.OpClose, ws.NewCloseFrameBody(ws.StatusNormalClosure, c.WSReason)); err != nil {
 			return []evid.Violation{evid.V("ws-write", "ws:write-close", "close: %v", err)}
 		}
 		for !readOne() {
@@ -246,13 +246,14 @@ func TestPropWS(t *testing.T) {
 			c.FinalCode = rapid.SampledFrom([]int{3, 5, 9, 13}).Draw(t, "code")
 			c.FinalMsg = "scripted failure"
 		}
+		c.WSReason = rapid.SampledFrom([]string{"", "", "done", "client finished sending", "fin ✓"}).Draw(t, "wsReason")
 		if rapid.IntRange(0, 2).Draw(t, "fragmented") == 0 {
 			c.WSFrag = rapid.SampledFrom([]int{1, 2, 5, 16, 100}).Draw(t, "wsFrag")
 		}
 		vs := CheckWS(c)
 		key := ""
 		if n >= 2 || m >= 2 {
-			key = fmt.Sprintf("ws|%d|%d|%v|%d|%d", n, m, c.PingPong, c.FinalCode, c.WSFrag)
+			key = fmt.Sprintf("ws|%d|%d|%v|%d|%d|%s", n, m, c.PingPong, c.FinalCode, c.WSFrag, c.WSReason)
 			for _, x := range c.Msgs {
 				key += fmt.Sprintf("|%d", len(x))
 			}
